@@ -871,6 +871,96 @@ def e2e_search(ctx, shim, r):
 
 # ------------------------------------------------------------------------------------------------
 
+META_TAGS = ["init", "medi", "fina", "isol", "med2", "fin2", "fin3", "rlig", "liga", "calt", "ccmp", "kern", "mark", "mkmk", "locl",
+             "rclt", "clig", "akhn", "half", "pres", "abvs", "blws", "psts", "haln", "ljmo", "vjmo", "tjmo", "curs", "dist", "cjct",
+             "rphf", "pref", "nukt", "vatu", "blwf", "abvf", "pstf", "smcp", "frac", "numr", "dnom", "aalt"]
+
+
+SYLLABIC_NAMES = ("DEVANAGARI", "BENGALI", "GURMUKHI", "GUJARATI", "ORIYA", "TAMIL", "TELUGU", "KANNADA", "MALAYALAM", "SINHALA",
+                  "KHMER", "MYANMAR", "JAVANESE", "BALINESE", "TIBETAN", "SUNDANESE", "TAI THAM", "CHAM", "BRAHMI", "BUGINESE",
+                  "KHAROSHTHI", "SHARADA", "GRANTHA", "TAKRI", "MODI", "NEWA", "LIMBU", "LEPCHA", "SYLOTI", "BATAK", "REJANG",
+                  "KAITHI", "SAURASHTRA", "MEETEI", "TIRHUTA", "SIDDHAM", "KHOJKI", "KHUDAWADI", "CHAKMA", "MAHAJANI", "DOGRA")
+# features whose per-glyph masks the syllabic shapers assign during their reordering pause (after setup_masks)
+SYLLABIC_BASIC = {"nukt", "akhn", "rphf", "rkrf", "pref", "blwf", "abvf", "half", "pstf", "vatu", "cjct", "cfar", "init"}
+
+
+def shaper_family(text):
+    import unicodedata
+    for ch in text:
+        nm = unicodedata.name(ch, "")
+        if unicodedata.category(ch)[0] in "LM" and nm:
+            return "syllabic" if nm.startswith(SYLLABIC_NAMES) else "other"
+    return "other"
+
+
+def metamorphic_search(ctx, shim, r, ncases):
+    """Consequences of "a user feature affects exactly the clusters of its range", checked through the public shape() on the
+    repository's own fonts — all shapers, incl. those that drive features per glyph (Arabic forms, Hangul jamo, Indic forms):
+      (1) a range covering every cluster of the text  ==  the global feature;
+      (2) an empty range, or a range beyond the last cluster  ==  no feature;
+      (3) adding features whose tags the font does not have (any value, any range)  ==  not adding them."""
+    import corpus
+    cases = r.shuffle(corpus.load())[:ncases]
+    groups, meta = [], []
+    for fid, reg, cs in corpus.font_groups(cases):
+        lines = [reg]
+        trip = []
+        for c in cs:
+            if c.extra and any(x.startswith("fstr=") for x in c.extra):
+                continue        # the fixture's own feature strings would be mixed with ours
+            n = len(c.text)
+            tag = r.choice(META_TAGS)
+            v = r.choice([0, 0, 1])
+            U = 4294967295
+            base = list(c.feats)
+            k = r.below(n + 1)
+            absent = [("zz%02d" % r.below(50), r.choice([1, 3, 100, 200, 255]), *r.choice([(0, U), (0, n), (k, n)]))
+                      for _ in range(r.range(1, 3))]
+            variants = {
+                "global": base + [(tag, v, 0, U)],
+                "full-range": base + [(tag, v, 0, n)],
+                "over-range": base + [(tag, v, 0, n + r.range(1, 9))],
+                "none": base,
+                "empty-range": base + [(tag, v, k, k)],
+                "beyond-range": base + [(tag, v, n, n + 3)],
+                "absent-tags": base + absent,
+            }
+            idx = {}
+            for name, f in variants.items():
+                idx[name] = len(lines)
+                lines.append(c.shape_line(fid, feats=f))
+            trip.append((c, tag, v, idx, variants))
+        groups.append(lines); meta.append(trip)
+    outs = vlib.run_groups(shim, groups, timeout=900)
+    total = nontriv = bad = 0
+    for trip, g, o in zip(meta, groups, outs):
+        for c, tag, v, idx, variants in trip:
+            total += 1
+            get = lambda name: o[idx[name]]
+            if get("global") != get("none"):
+                nontriv += 1            # the feature does something on this font/text
+            pairs = [("global", "full-range", "full-range-equals-global"), ("global", "over-range", "full-range-equals-global"),
+                     ("none", "empty-range", "empty-range-equals-none"), ("none", "beyond-range", "empty-range-equals-none"),
+                     ("none", "absent-tags", "absent-tags-equal-none")]
+            for a, b, cls in pairs:
+                if get(a) != get(b):
+                    bad += 1
+                    if bad <= 40:
+                        fam = shaper_family(c.text)
+                        kind = ("reordering-feature" if tag in SYLLABIC_BASIC else
+                                "override-feature" if tag in ("clig", "liga") else "other-feature")
+                        cls2 = cls + ":" + fam + ":" + kind
+                        ctx.violation(f"user feature range semantics: {b} differs from {a} for feature {tag}={v} on {c.name}",
+                                      {"stage": "search", "stream": "feature-metamorphic", "class": cls2, "fixture": c.name,
+                                       "font_line": g[0], "lines": [g[0], g[idx[a]], g[idx[b]]], "features_a": variants[a],
+                                       "features_b": variants[b], "result_a": get(a)[:600], "result_b": get(b)[:600]})
+                    break
+    ctx.note_search("feature-metamorphic", total * 7, nontriv, fixtures=total, deviations=bad,
+                    rule="per corpus fixture (all fonts and scripts of tests/shaping) one tag from a list of common feature tags with "
+                         "value 0/1: global vs full range vs over-long range; none vs empty range vs range beyond the text vs extra "
+                         "absent tags; non-trivial = the global feature changes the shaping result")
+
+
 def run(ctx):
     ctx.assumptions += [
         "the theorems are about the Lean models of Feature::new / from_str / is_global (common.rs, text_parser.rs), of the "
@@ -910,6 +1000,7 @@ def run(ctx):
     ctx.correspond("feature-shape", groups=shape_groups(r, units, ctx.budget(150, 800)), classify=classify_shape)
 
     e2e_search(ctx, shim, ctx.rng("e2e"))
+    metamorphic_search(ctx, shim, ctx.rng("meta"), ctx.budget(600, 2128))
 
 
 def replay(ctx, rp):
